@@ -213,7 +213,9 @@ def run_one(spec: dict) -> dict:
             viol = viol or {"class": "session_register_wrong", "message": f"statement {i} registered {len(regs)} times: {regs}"}
         # judged for the statement that first defines the table in this script (re-definition of a table whose
         # columns are already known - earlier in the script or to the provider - is not described by the property)
-        first_definition = a["target"] not in model and a["target"] not in base
+        first_definition = a["target"] not in model and (a["target"] not in base or a["kind"] in ("ctas", "view"))
+        if first_definition and a["target"] in base:
+            probe("shadows_provider_table")
         # (an explicit column list combined with a wildcard select is a single-statement question - how one
         # statement maps * onto its column list is C02's subject - and is not judged here)
         if a["kind"] in CREATING and a["out"] is not None and (not a["wild"] or in_use) and first_definition and not (a["kind"] == "insert_cols" and (a["wild"] or spec["dialect"] == "non-validating")):
@@ -263,7 +265,7 @@ def run_one(spec: dict) -> dict:
     model = {}
     for i, a in enumerate(annot):
         if (in_use and a["kind"] in CREATING and a["star"] and len(a["srcs"]) == 1 and a["srcs"][0] in model and a["kind"] != "insert_cols"
-                and a["target"] not in model and a["target"] not in base):
+                and a["target"] not in model and (a["target"] not in base or a["kind"] in ("ctas", "view"))):
             T, W = a["srcs"][0], a["target"]
             want = sorted([f"{T}.{c}", f"{W}.{c}"] for c in model[T])
             got = sorted([p[0], p[1]] for p in stmt_pairs[i])
@@ -287,6 +289,7 @@ def run_one(spec: dict) -> dict:
                 graph_defined.setdefault(t.rsplit(".", 1)[0], set()).add(t.rsplit(".", 1)[1])
             if cands is None and "." in s:
                 graph_defined.setdefault(s.rsplit(".", 1)[0], set()).add(s.rsplit(".", 1)[1])
+    registered_tables = {ev[2] for ev in events if ev[0] == "register"}
     exact = set()
     flex = set()
     has_flex = False
@@ -298,7 +301,10 @@ def run_one(spec: dict) -> dict:
             tabs = [n for k, n in cands if k == "Table"]
             every = [n for _k, n in cands]
             defining = [n for n in every if raw in ever_defined.get(n, ()) or raw in graph_defined.get(n, ())]
-            if in_use and len(defining) == 1 and len(every) == len(tabs):
+            # a candidate whose definition changes during the script (a provider-known table the script re-creates):
+            # resolution happens late, against the final session, so which definition counts is not determined
+            redefined = [n for n in every if n in base and n in registered_tables]
+            if in_use and len(defining) == 1 and len(every) == len(tabs) and not redefined:
                 exact.add((f"{defining[0]}.{raw}", t))
                 if defining[0] in {r[2] for e in regs_by_stmt.values() for r in e}:
                     probe("unqualified_resolved_by_session")
@@ -372,6 +378,7 @@ def gen(seed) -> dict:
     dialect = g.choice(["ansi", "ansi", "non-validating"])
     sg = ScriptGen(g, f"k{seed % 1000}", known=base, allow_drop_rename=False, allow_cte=g.random() < 0.5)
     sg.strict_subquery_cols = True
+    sg.shadow_targets = sorted(base)
     n = g.choice([2, 3, 3, 4, 5])
     script, annot = [], []
     tries = 0
